@@ -80,7 +80,7 @@ def f1_effects(ctx):
     obj = model_obj(repo)
     f.run(init, self_obj=obj)
     ctx.analysed['call_sites'] += f.calls_seen
-    effs = [e for e in f.effects if e.kind in ('write', 'delete', 'mmap-write', 'mkdir')]
+    effs = [e for e in f.effects if e.kind in ('write', 'delete', 'mmap-write', 'mkdir', 'alias')]
     ctx.note('load_model call tree: %d call sites interpreted, %d may-effects of kind write/delete/map-write found' % (f.calls_seen, len(effs)))
     seen = set()
     n_ok = 0
@@ -91,6 +91,10 @@ def f1_effects(ctx):
         if key in seen:
             continue
         seen.add(key)
+        if kind == 'alias':
+            ctx.violated('C04.F1', e.fi, e.node, 'loading creates %s/%s as a link to an existing file, not as a copy: both names share their bytes, so a later save through one '
+                         'name rewrites the other pre-existing file  [%s; call chain: %s]' % (root, pat, e.detail, e.chain()))
+            continue
         if root == 'DATASET' and kind == 'write' and pat in allowed_hits:
             allowed_hits[pat].append(e)
             n_ok += 1
@@ -274,6 +278,7 @@ def d1_defaults(ctx):
            q.simple_compare(i.test)[1] == 'is' and const_value(q.simple_compare(i.test)[2]) is None]
     ok = False
     scrubbed = set()
+    nan_to_num_inf = None
     if ifs:
         body = ifs[0]
         for f in [n for n in ast.walk(body) if isinstance(n, ast.For)]:
@@ -287,14 +292,29 @@ def d1_defaults(ctx):
             if d == 'np.isfinite':
                 scrubbed |= {'nan', 'inf'}
             if d == 'np.nan_to_num':
-                scrubbed |= {'nan', 'inf'}
-        zero = any(isinstance(a, ast.Assign) and isinstance(a.targets[0], ast.Subscript) and const_value(a.value) == 0 for a in ast.walk(body)) or \
-            any(isinstance(c, ast.Call) and (dotted(c.func) or '') == 'np.nan_to_num' for c in ast.walk(body))
+                # NaN -> `nan=` (default 0.0); +-inf -> the largest / smallest finite value unless posinf= / neginf= are given
+                kw = {k.arg: const_value(k.value) for k in c.keywords}
+                if kw.get('nan', 0) == 0:
+                    scrubbed.add('nan')
+                if kw.get('posinf', None) == 0 and kw.get('neginf', None) == 0 and 'posinf' in kw and 'neginf' in kw:
+                    scrubbed.add('inf')
+                else:
+                    nan_to_num_inf = c
+        assigned0 = [a for a in ast.walk(body) if isinstance(a, ast.Assign) and isinstance(a.targets[0], ast.Subscript) and const_value(a.value) == 0]
+        by_store = set()
+        for a in assigned0:
+            # which kinds reach the store: the loop constants / predicates in scope
+            by_store |= scrubbed
+        zero = bool(assigned0) or any(isinstance(c, ast.Call) and (dotted(c.func) or '') == 'np.nan_to_num' for c in ast.walk(body))
+        if not assigned0:
+            # without a masked store only what nan_to_num itself zeroes counts
+            scrubbed = {k for k in scrubbed if k == 'nan' or nan_to_num_inf is None}
         ok = {'nan', 'inf'} <= scrubbed and zero
     ctx.check(bool(ifs), 'C04.D1', ra, ifs[0].test if ifs else 'read_array', 'the scrub is applied iff the array is fully loaded (mmap_mode is None)',
               'NaN/inf scrubbing is not conditioned on `mmap_mode is None`')
-    ctx.check(ok, 'C04.D1', ra, ifs[0] if ifs else 'read_array', 'both NaN and inf entries of fully loaded arrays are replaced by zero',
-              'fully loaded arrays are scrubbed of %s only (NaN and inf must both become 0)' % sorted(scrubbed))
+    ctx.check(ok, 'C04.D1', ra, (nan_to_num_inf if nan_to_num_inf is not None and not ok else (ifs[0] if ifs else 'read_array')), 'both NaN and inf entries of fully loaded arrays are replaced by zero',
+              ('np.nan_to_num without posinf=0, neginf=0 replaces +-inf by the largest / smallest finite value of the dtype, not by zero' if nan_to_num_inf is not None and 'nan' in scrubbed
+               else 'fully loaded arrays are scrubbed of %s only (NaN and inf must both become 0)' % sorted(scrubbed)))
     ld = [c for c in ra.calls() if dotted(c.func) == 'np.load']
     ctx.check(bool(ld) and q.kwarg(ld[0], 'mmap_mode') is not None and unparse(q.kwarg(ld[0], 'mmap_mode')) == mm, 'C04.D1', ra, ld[0] if ld else 'read_array',
               'np.load is given the requested map mode', 'np.load ignores the requested mmap_mode')
